@@ -36,7 +36,8 @@ def decl_specs(tier):
         specs.append({'names': [c], 'wrapper': 'd'})
     for sp in alphabet.boundary_specs() + alphabet.structure_specs():
         # the same by-design exclusions (an absolute alignment of the holder makes the parse depend on where it starts)
-        if not (alphabet.scan(alphabet.make_decl(sp['names'], sp.get('opts'), sp.get('wrapper', 'a'), wopts=sp.get('wopts'))) & EXCLUDED_FEATURES):
+        P = sp['P'] if 'P' in sp else alphabet.make_decl(sp['names'], sp.get('opts'), sp.get('wrapper', 'a'), wopts=sp.get('wopts'))
+        if not (alphabet.scan(P) & EXCLUDED_FEATURES):
             specs.append(sp)
     return specs
 
